@@ -84,6 +84,21 @@ GridDef == [
                        PS([Ea |-> <<125, 1, 3>>, T0 |-> <<1000, 1, 0>>, k0 |-> <<3, 1, -2>>], NoEnv, NoEnv) },
   FitArrhenius |-> { PS([A |-> <<1, 1, 10>>, B |-> <<5000, 1, 0>>], NoEnv, NoEnv), PS([A |-> <<3, 1, 0>>, B |-> <<250, 1, 0>>], NoEnv, NoEnv) },
   FitEyring |-> { PS([a |-> <<25, 1, 0>>, B |-> <<8000, 1, 0>>], NoEnv, NoEnv), PS([a |-> <<18, 1, 0>>, B |-> <<1200, 1, 0>>], NoEnv, NoEnv) },
+  CallbackPoly |-> { PS(PolyV1, PolyA1, [x |-> <<7, 1, 0>>]), PS(PolyV2, PolyA2, [x |-> <<-5, 2, 0>>]) },
+  MassActionCallback |-> { PS([A |-> <<1, 1, 11>>, Ea_over_R |-> <<5000, 1, 0>>], [A |-> <<7, 2, 9>>, Ea_over_R |-> <<12025, 2, 0>>], XY),
+                           PS([A |-> <<5, 2, -3>>, Ea_over_R |-> <<0, 1, 0>>], [A |-> <<4, 1, 0>>, Ea_over_R |-> <<25, 1, 3>>], XY2) },
+  EqCallback |-> { PS([dH_over_R |-> <<-5000, 1, 0>>, dS_over_R |-> <<3, 1, 0>>], [dH_over_R |-> <<2500, 1, 0>>, dS_over_R |-> <<-7, 2, 0>>], NoEnv) },
+  MA_mul_num |-> { PS([k |-> <<314, 100, 0>>, f |-> <<5, 2, 0>>], NoEnv, XY), PS([k |-> <<7, 1, 9>>, f |-> <<1, 1, 0>>], NoEnv, XY2) },
+  MA_rmul_num |-> { PS([k |-> <<314, 100, 0>>, f |-> <<5, 2, 0>>], NoEnv, XY), PS([k |-> <<7, 1, 9>>, f |-> <<1, 1, 0>>], NoEnv, XY2) },
+  MA_div_num |-> { PS([k |-> <<314, 100, 0>>, f |-> <<5, 2, 0>>], NoEnv, XY), PS([k |-> <<7, 1, 9>>, f |-> <<1, 1, 0>>], NoEnv, XY2) },
+  MA_mul_expr |-> { PS([k |-> <<314, 100, 0>>, f |-> <<5, 2, 0>>], NoEnv, XY), PS([k |-> <<7, 1, 9>>, f |-> <<1, 1, 0>>], NoEnv, XY2) },
+  MA_rmul_expr |-> { PS([k |-> <<314, 100, 0>>, f |-> <<5, 2, 0>>], NoEnv, XY), PS([k |-> <<7, 1, 9>>, f |-> <<1, 1, 0>>], NoEnv, XY2) },
+  ArrheniusParts |-> { PS([A |-> <<1, 1, 13>>, Ea |-> <<40, 1, 3>>], NoEnv, NoEnv) },
+  EyringParts |-> { PS([dH |-> <<72, 1, 3>>, dS |-> <<614, 10, 0>>], NoEnv, NoEnv), PS([dH |-> <<40, 1, 3>>, dS |-> <<-20, 1, 0>>], NoEnv, NoEnv) },
+  PiecewiseNum |-> { PS([lo |-> <<250, 1, 0>>, v0 |-> <<3, 2, 0>>, m1 |-> <<300, 1, 0>>, v1 |-> <<7, 1, 0>>, m2 |-> <<1200, 1, 0>>,
+                         v2 |-> <<1, 4, 0>>, hi |-> <<1500, 1, 0>>], NoEnv, NoEnv),
+                     PS([lo |-> <<100, 1, 0>>, v0 |-> <<-1, 1, 0>>, m1 |-> <<250, 1, 0>>, v1 |-> <<2, 1, 0>>, m2 |-> <<400, 1, 0>>,
+                         v2 |-> <<9, 1, 0>>, hi |-> <<2000, 1, 0>>], NoEnv, NoEnv) },
   LeastSquares |-> { PS([b0 |-> <<3, 2, 0>>, b1 |-> <<-7, 4, 0>>], NoEnv, NoEnv), PS([b0 |-> <<0, 1, 0>>, b1 |-> <<1, 3, 0>>], NoEnv, NoEnv) }
 ]
 TempsQ == { <<5963, 20, 0>>, <<2000, 1, 0>> }
@@ -91,5 +106,5 @@ TempsT == { <<200, 1, 0>>, <<5963, 20, 0>>, <<500, 1, 0>>, <<1000, 1, 0>>, <<200
 LC_All == AllLawClasses
 M_All == AllModes
 Pat_All == AllPatterns
-Pat_Q == {"none", "first", "all", "absent", "keys-only"}
+Pat_Q == {"none", "all", "keys-only", "dict"}
 =============================================================================
